@@ -126,7 +126,7 @@ def native_case(nodes, di, bi, a, b, C, order=None):
     rec["expected_separated"] = want
     try:
         j = are_d_separated(g, a, b, conditions=set(C))
-        j2 = are_d_separated(g, b, a, conditions=list(reversed(list(C))))
+        j2 = are_d_separated(g, b, a, conditions=list(reversed(list(C))) if C else None)  # None = no conditions
     except Exception as e:  # noqa: BLE001
         rec["observed"] = f"raised {type(e).__name__}: {short(e, 100)}"
         rec["bad"] = True
